@@ -7,7 +7,7 @@ sys.path.insert(0, os.path.join(REPO, "src"))
 warnings.simplefilter("ignore")
 
 import pystog  # noqa: E402
-from pystog import Converter, Transformer, FourierFilter  # noqa: E402
+from pystog import Converter, Transformer, FourierFilter, Pre_Proc  # noqa: E402
 
 assert os.path.realpath(pystog.__file__).startswith(os.path.realpath(REPO)), pystog.__file__
 
@@ -16,7 +16,7 @@ _OBJ = {}
 
 def obj(cls):
     if cls not in _OBJ:
-        _OBJ[cls] = {"Converter": Converter, "Transformer": Transformer, "FourierFilter": FourierFilter}[cls]()
+        _OBJ[cls] = {"Converter": Converter, "Transformer": Transformer, "FourierFilter": FourierFilter, "Pre_Proc": Pre_Proc}[cls]()
     return _OBJ[cls]
 
 
